@@ -15,6 +15,8 @@ pub struct Case {
     pub name: String,
     pub pres: Pres,
     pub k: usize,
+    /// budget (number of generator-image tuples) for the brute-force homomorphism count
+    pub bf_limit: f64,
 }
 
 /// Runs the library enumeration and returns the tables (as oracle-side tables).
@@ -72,7 +74,7 @@ pub fn judge(ctx: &mut Ctx, c: &Case) {
     let mut truth_source = "low_index oracle";
     let li = groups::low_index_profile(&c.pres, c.k, 3_000_000);
     for n in 1..=c.k {
-        if let Some(x) = groups::classes_of_index_bf(&c.pres, n, 3.0e6) {
+        if let Some(x) = groups::classes_of_index_bf(&c.pres, n, c.bf_limit) {
             expected[n] = Some(x);
             if let Some(prof) = &li {
                 if prof[n - 1] != x {
@@ -123,14 +125,14 @@ pub fn build_cases(cfg: &Cfg) -> Vec<Case> {
             _ => cfg.tier.pick(3, 4),
         };
         for kk in 1..=k {
-            cases.push(Case { name: g.name.to_string(), pres: g.pres.clone(), k: kk });
+            cases.push(Case { name: g.name.to_string(), pres: g.pres.clone(), k: kk, bf_limit: 3.0e6 });
         }
     }
     // degenerate but legal: presentations containing an empty relator
     for g in groupcorpus::corpus().into_iter().take(12) {
         let mut p2 = g.pres.clone();
         p2.rels.insert(0, vec![]);
-        cases.push(Case { name: format!("{} + empty relator", g.name), pres: p2, k: 3 });
+        cases.push(Case { name: format!("{} + empty relator", g.name), pres: p2, k: 3, bf_limit: 3.0e6 });
     }
     // redundant generators: a trivial generator (relator of length 1, also its square and fourth power, as
     // the library's own presentations of orbifold groups contain them) inserted as generator 1 or as the
@@ -140,18 +142,18 @@ pub fn build_cases(cfg: &Cfg) -> Vec<Case> {
         // trivial generator first: shift all others up by one
         let mut rels: Vec<Vec<i64>> = vec![vec![1], vec![1, 1], vec![1, 1, 1, 1]];
         rels.extend(g.pres.rels.iter().map(|w| w.iter().map(|&x| if x > 0 { x + 1 } else { x - 1 }).collect::<Vec<i64>>()));
-        cases.push(Case { name: format!("{} with a trivial generator inserted first", g.name), pres: Pres { ngens: g.pres.ngens + 1, rels }, k: cfg.tier.pick(4, 5) });
+        cases.push(Case { name: format!("{} with a trivial generator inserted first", g.name), pres: Pres { ngens: g.pres.ngens + 1, rels }, k: cfg.tier.pick(4, 5), bf_limit: 3.0e6 });
         let mut rels2 = g.pres.rels.clone();
         rels2.push(vec![n + 1]);
-        cases.push(Case { name: format!("{} with a trivial generator appended", g.name), pres: Pres { ngens: g.pres.ngens + 1, rels: rels2 }, k: cfg.tier.pick(4, 5) });
+        cases.push(Case { name: format!("{} with a trivial generator appended", g.name), pres: Pres { ngens: g.pres.ngens + 1, rels: rels2 }, k: cfg.tier.pick(4, 5), bf_limit: 3.0e6 });
     }
     // cyclic groups with a trivial extra generator, the shape of the library's own presentation of the group
     // of <1.1:4 3:2 4,2 4,3 4,3 4:4 1,4,4 4> (Z4 = <a,b | a, a^2, a^4, b^4>)
     for n in 2..=cfg.tier.pick(7, 10) {
         let pw = |g: i64, k: usize| -> Vec<i64> { vec![g; k] };
-        cases.push(Case { name: format!("Z{} = <a,b | a, a^2, a^4, b^{}>", n, n), pres: Pres { ngens: 2, rels: vec![vec![1], pw(1, 2), pw(1, 4), pw(2, n)] }, k: n.min(cfg.tier.pick(6, 8)) });
-        cases.push(Case { name: format!("Z{} = <a,b | a^{}, b>", n, n), pres: Pres { ngens: 2, rels: vec![pw(1, n), vec![2]] }, k: n.min(cfg.tier.pick(6, 8)) });
-        cases.push(Case { name: format!("Z{} = <a,b,c | a, b^{}, c>", n, n), pres: Pres { ngens: 3, rels: vec![vec![1], pw(2, n), vec![3]] }, k: n.min(5) });
+        cases.push(Case { name: format!("Z{} = <a,b | a, a^2, a^4, b^{}>", n, n), pres: Pres { ngens: 2, rels: vec![vec![1], pw(1, 2), pw(1, 4), pw(2, n)] }, k: n.min(cfg.tier.pick(6, 8)), bf_limit: 3.0e6 });
+        cases.push(Case { name: format!("Z{} = <a,b | a^{}, b>", n, n), pres: Pres { ngens: 2, rels: vec![pw(1, n), vec![2]] }, k: n.min(cfg.tier.pick(6, 8)), bf_limit: 3.0e6 });
+        cases.push(Case { name: format!("Z{} = <a,b,c | a, b^{}, c>", n, n), pres: Pres { ngens: 3, rels: vec![vec![1], pw(2, n), vec![3]] }, k: n.min(5), bf_limit: 3.0e6 });
     }
     // rotation groups (fundamental groups of oriented covers: no involutory mirror generators) at high
     // index bounds, where a deduction at the row being scanned matters
@@ -172,7 +174,7 @@ pub fn build_cases(cfg: &Cfg) -> Vec<Case> {
                     Pres { ngens: fg.nr_generators(), rels: from_freewords(fg.relators.iter()) }
                 }) {
                     if fg.ngens >= 2 && fg.ngens <= 3 {
-                        cases.push(Case { name: format!("rotation group of {} (library presentation)", x.to_text()), pres: fg, k: cfg.tier.pick(7, 9) });
+                        cases.push(Case { name: format!("rotation group of {} (library presentation)", x.to_text()), pres: fg, k: cfg.tier.pick(7, 9), bf_limit: 3.0e6 });
                     }
                 }
             });
@@ -185,15 +187,46 @@ pub fn build_cases(cfg: &Cfg) -> Vec<Case> {
                 Pres { ngens: fg.nr_generators(), rels: from_freewords(fg.relators.iter()) }
             }) {
                 if fg.ngens <= 4 {
-                    cases.push(Case { name: format!("rotation group of 3D symbol {} (library presentation)", t), pres: fg, k: cfg.tier.pick(7, 9) });
+                    cases.push(Case { name: format!("rotation group of 3D symbol {} (library presentation)", t), pres: fg, k: cfg.tier.pick(7, 9), bf_limit: 3.0e6 });
                 }
             }
+        }
+    }
+    // three generators one of which is redundant (defined by a relator as a word in the others), index 5:
+    // ground truth from the harness's low-index search (brute force only up to index 4 here)
+    {
+        let mut rng = crate::rng::Rng::stream(cfg.seed, 0x12_3);
+        for k in 0..cfg.tier.pick(2500, 40_000) {
+            let g = 1 + rng.below(2) as i64; // generator with a power relator
+            let p = 2 + rng.below(5);
+            let h = if rng.chance(1, 2) { 3 - g } else { g }; // generator expressed through the others
+            let len = 3 + rng.below(4);
+            let mut w: Vec<i64> = vec![-h];
+            let pos_c = rng.below(len);
+            for t in 0..len {
+                if t == pos_c {
+                    w.push(if rng.chance(1, 2) { 3 } else { -3 });
+                } else {
+                    let x = *rng.pick(&[1i64, 2, 3]);
+                    w.push(if rng.chance(1, 2) { x } else { -x });
+                }
+            }
+            let w = crate::oracle::groups::reduce(&w);
+            let mut rels = vec![vec![g; p], w];
+            if rng.chance(1, 3) {
+                rels.remove(0);
+            }
+            cases.push(Case { name: format!("3 generators with a redundant one #{}", k), pres: Pres { ngens: 3, rels }, k: 5, bf_limit: 2.0e4 });
+        }
+        for (name, p) in groupcorpus::hostile_presentations(cfg.seed, cfg.tier.pick(200, 2000)) {
+            let k = if p.ngens == 3 { 5 } else { cfg.tier.pick(5, 6) };
+            cases.push(Case { name, pres: p, k, bf_limit: 2.0e5 });
         }
     }
     // random presentations
     for (k, p) in groupcorpus::random_presentations(cfg.seed, cfg.tier.pick(400, 4000)).into_iter().enumerate() {
         let kk = if p.ngens == 2 { cfg.tier.pick(4, 5) } else { 3 };
-        cases.push(Case { name: format!("random presentation #{}", k), pres: p, k: kk });
+        cases.push(Case { name: format!("random presentation #{}", k), pres: p, k: kk, bf_limit: 3.0e6 });
     }
     // Z^4
     let mut z4 = vec![];
@@ -202,7 +235,7 @@ pub fn build_cases(cfg: &Cfg) -> Vec<Case> {
             z4.push(vec![a, b, -a, -b]);
         }
     }
-    cases.push(Case { name: "Z^4".into(), pres: Pres { ngens: 4, rels: z4 }, k: cfg.tier.pick(2, 3) });
+    cases.push(Case { name: "Z^4".into(), pres: Pres { ngens: 4, rels: z4 }, k: cfg.tier.pick(2, 3), bf_limit: 3.0e6 });
     // fundamental groups of 2D symbols (euclidean ones give the wallpaper groups) and small 3D symbols,
     // in the library's own presentation (the one its clients enumerate) and the reduced textbook one
     let mut count = 0;
@@ -213,14 +246,14 @@ pub fn build_cases(cfg: &Cfg) -> Vec<Case> {
                 count += 1;
                 let tb = pi1::textbook_pi1(x);
                 if tb.pres.ngens <= 4 {
-                    cases.push(Case { name: format!("pi1 of {} (reduced textbook presentation)", x.to_text()), pres: tb.pres.clone(), k: 3 });
+                    cases.push(Case { name: format!("pi1 of {} (reduced textbook presentation)", x.to_text()), pres: tb.pres.clone(), k: 3, bf_limit: 3.0e6 });
                 }
                 if let Ok(fg) = observe(|| {
                     let fg = rust_dsymbols::fundamental_group::fundamental_group(&to_partial_dsym(x));
                     Pres { ngens: fg.nr_generators(), rels: from_freewords(fg.relators.iter()) }
                 }) {
                     if fg.ngens <= 4 {
-                        cases.push(Case { name: format!("pi1 of {} (library presentation)", x.to_text()), pres: fg, k: cfg.tier.pick(3, 4) });
+                        cases.push(Case { name: format!("pi1 of {} (library presentation)", x.to_text()), pres: fg, k: cfg.tier.pick(3, 4), bf_limit: 3.0e6 });
                     }
                 }
             }
@@ -235,7 +268,7 @@ pub fn build_cases(cfg: &Cfg) -> Vec<Case> {
                     Pres { ngens: fg.nr_generators(), rels: from_freewords(fg.relators.iter()) }
                 }) {
                     if fg.ngens <= 5 {
-                        cases.push(Case { name: format!("pi1 of 3D symbol {} (library presentation)", x.to_text()), pres: fg, k: 3 });
+                        cases.push(Case { name: format!("pi1 of 3D symbol {} (library presentation)", x.to_text()), pres: fg, k: 3, bf_limit: 3.0e6 });
                     }
                 }
             }
@@ -273,6 +306,6 @@ pub fn replay(ctx: &mut Ctx, input: &Value) -> bool {
     };
     let k = input.get("max_index").and_then(|x| x.as_u64()).unwrap_or(3) as usize;
     let name = input.get("group").and_then(|x| x.as_str()).unwrap_or("").to_string();
-    judge(ctx, &Case { name, pres, k });
+    judge(ctx, &Case { name, pres, k, bf_limit: 3.0e6 });
     true
 }
